@@ -306,7 +306,10 @@ def cmdErase : Nat → St α → List (Tok α) → Except Err (St α × List (To
   | fuel + 1, s, t =>
     match t with
     | .var name :: r =>
-      let s1 := s.setVar name ((s.getVar name).clear)
+      -- `clearvar`; FOR loops running on an element of the released array continue on the scalar cell
+      let s0 := s.setVar name ((s.getVar name).clear)
+      let s1 := { s0 with loops := s0.loops.map fun l =>
+                    if l.kind == .for_ && l.var == name then { l with cell := none } else l }
       if isEos r then .ok (s1, r)
       else (match requireK .comma r with
         | .error e => .error e
@@ -342,15 +345,19 @@ def cmdRead (hook : Hook α) : Nat → St α → List (Tok α) → Except Err (S
         match pos with
         | .error e => .error e
         | .ok (dl1, dt1) =>
+          -- the cell `findvar` designated receives the value (its address is taken before the DATA expression is
+          -- evaluated); a string cell is freed first, so the expression already sees it empty
+          let target := (s1.getVar name).ptr
           let assigned : Except Err (St α × List (Tok α)) :=
             if isStrName name then
-              match strExprAt hook dt1 s1 with
+              let s1c := s1.setVar name ((s1.getVar name).setStrAt target "")
+              match strExprAt hook dt1 s1c with
               | .error e => .error e
-              | .ok (x, r, s2) => .ok (s2.setVar name ((s2.getVar name).setStr x), r)
+              | .ok (x, r, s2) => .ok (s2.setVar name ((s2.getVar name).setStrAt target x), r)
             else
               match realExprAt hook dt1 s1 with
               | .error e => .error e
-              | .ok (x, r, s2) => .ok (s2.setVar name ((s2.getVar name).setNum x), r)
+              | .ok (x, r, s2) => .ok (s2.setVar name ((s2.getVar name).setNumAt target x), r)
           match assigned with
           | .error e => .error e
           | .ok (s3, dt2) =>
@@ -424,7 +431,9 @@ def execStmt (hook : Hook α) (s : St α) (line : Option Nat) (head : Tok α) (t
            match realExprAt hook t2 s1 with
            | .error e => .error e
            | .ok (x0, t3, s2) =>
-             let s3 := s2.setVar name ((s2.getVar name).setNum x0)
+             -- the loop runs on the cell `findvar` designated, whatever the expressions and the body reference later
+             let cell := (s1.getVar name).ptr
+             let s3 := s2.setVar name ((s2.getVar name).setNumAt cell x0)
              match requireK .to t3 with
              | .error e => .error e
              | .ok t4 =>
@@ -436,13 +445,14 @@ def execStmt (hook : Hook α) (s : St α) (line : Option Nat) (head : Tok α) (t
                  match stepR with
                  | .error e => .error e
                  | .ok (st, t6, s5) =>
-                   let v := (s5.getVar name).numVal
+                   let v := (s5.getVar name).numAt cell
                    if forSkips v mx st then
                      match scanStream (forSkipStep name) ((0, 0) : Int × Int) (streamFrom s5 line t6) with
                      | none => .error .forWoNext
                      | some (ln, r) => .ok { st := s5, line := ln, t := skipToEos r }
                    else
-                     let l : Loop α := { kind := .for_, homeline := line, hometok := t6, var := name, max := mx, step := st }
+                     let l : Loop α := { kind := .for_, homeline := line, hometok := t6, var := name, cell := cell,
+                                         max := mx, step := st }
                      .ok { st := { s5 with loops := l :: s5.loops }, line := line, t := t6 })
     | .next =>
       let vr : Except Err (Option String × List (Tok α) × St α) :=
@@ -458,8 +468,8 @@ def execStmt (hook : Hook α) (s : St α) (line : Option Nat) (head : Tok α) (t
          | none => .error .nextWoFor
          | some (l, rest) =>
            let var := s1.getVar l.var
-           let nv := BNum.add var.numVal l.step
-           let s2 := s1.setVar l.var (var.setNum nv)
+           let nv := BNum.add (var.numAt l.cell) l.step
+           let s2 := s1.setVar l.var (var.setNumAt l.cell nv)
            if nextContinues nv l.max l.step then
              .ok { st := { s2 with loops := l :: rest }, line := l.homeline, t := l.hometok }
            else .ok { st := { s2 with loops := rest }, line := line, t := t1 })
